@@ -1,5 +1,6 @@
 import CandidModel.Driver.Leb
 import CandidModel.Driver.Principal
+import CandidModel.Driver.Subtype
 /-
   Line-protocol driver.  One request per line: `<op>\t<arg>\t<arg>…`; one answer per line:
   `<model answer>\t<spec answer>` (or `bad-op` for what no handler accepts — never a default).
@@ -7,7 +8,7 @@ import CandidModel.Driver.Principal
 open Candid Candid.Driver
 
 def handlers : List (String → List String → Option String) :=
-  [handleLeb, handlePrincipal]
+  [handleLeb, handlePrincipal, handleSubtype]
 
 def answer (line : String) : String :=
   match line.splitOn "\t" with
